@@ -28,6 +28,10 @@ pub enum EvKind {
     ClipY(usize, f64, f64),
     /// g = exp(k (y[i] - c)) - 1: overflows to +inf a little above the level (k (y - c) > 709.8)
     ExpY(usize, f64, f64),
+    /// g = (t - c)^3: a triple root (flat: bisection-like convergence)
+    CubeT(f64),
+    /// g = tanh(k (t - c)): a smoothed switch
+    TanhT(f64, f64),
 }
 
 #[derive(Clone, Debug)]
@@ -66,6 +70,8 @@ impl EventSpec {
                 EvKind::SqrtUntil(c, sg) => ((c - t) * sg).sqrt() + 0.1,
                 EvKind::ClipY(i, c, w) => ((y[i] - c) / w).clamp(-1.0, 1.0),
                 EvKind::ExpY(i, c, k) => (k * (y[i] - c)).exp() - 1.0,
+                EvKind::CubeT(c) => (t - c) * (t - c) * (t - c),
+                EvKind::TanhT(c, k) => (k * (t - c)).tanh(),
             }
     }
     /// Lipschitz bound of g along the trajectory in t, given a bound on |y'| and |y|.
@@ -80,6 +86,9 @@ impl EventSpec {
                 EvKind::ClipY(_, _, w) => dymax / w.abs(),
                 // near its root exp(k d) - 1 has slope k; the located point is within 1e-11 of it
                 EvKind::ExpY(_, _, k) => 2.0 * k.abs() * dymax,
+                // (t - c)^3 within 4e-12 of its root is below any bound worth stating: 1 is generous
+                EvKind::CubeT(_) => 1.0,
+                EvKind::TanhT(_, k) => k.abs(),
             }
     }
     pub fn describe(&self) -> String {
